@@ -8,8 +8,10 @@ mod cen;
 mod clu;
 mod comm;
 mod comp;
+mod degen;
 mod gen;
 mod graphgen;
+mod par;
 mod rng;
 mod sp;
 mod store;
@@ -19,6 +21,10 @@ use rng::Rng;
 use std::io::{BufRead, BufWriter, Write};
 
 fn gen(family: &str, profile: &str, seed: u64, count: usize, size: usize) -> Vec<String> {
+    if family == "degen" {
+        // exhaustive: every kind x shape x weight mode
+        return degen::all_requests();
+    }
     let mut rng = Rng::new(seed);
     let mut out = vec![];
     for _ in 0..count {
@@ -34,6 +40,7 @@ fn gen(family: &str, profile: &str, seed: u64, count: usize, size: usize) -> Vec
             }
             "sp" => sp::gen_case(&mut r, profile, size).request(),
             "complete" | "karate" | "gnp" | "gnpstat" => gen::gen_case(&mut r, family, profile, size),
+            "par" => par::gen_case(&mut r, profile, size).request(),
             "xml" => if profile == "roundtrip" { xml::gen_roundtrip(&mut r, size) } else { xml::gen_malformed(&mut r) },
             "mod" => comm::gen_mod(&mut r, profile, size).request(),
             "louv" => comm::gen_louv(&mut r, profile, size).request(),
@@ -70,6 +77,8 @@ fn run_line(line: &str) -> String {
         "karate" => guarded(gen::observe_karate),
         "gnp" => guarded(move || gen::observe_gnp(&mut t)),
         "gnpstat" => guarded(move || gen::observe_gnpstat(&mut t)),
+        "degen" => guarded(move || degen::observe(&mut t)),
+        "par" => { let c = par::Case::parse(&mut t); guarded(move || par::observe(&c)) }
         "xml" => guarded(move || xml::observe(&mut t)),
         "mod" => { let c = comm::ModCase::parse(&mut t); guarded(move || comm::observe_mod(&c)) }
         "louv" => {
@@ -93,6 +102,7 @@ fn candidates(line: &str) -> Vec<String> {
     match cmd.as_str() {
         "store" => store::candidates(&store::Case::parse(&mut t)),
         "sp" => sp::candidates(&sp::Case::parse(&mut t)),
+        "par" => par::candidates(&par::Case::parse(&mut t)),
         "xml" => xml::candidates(line),
         "mod" => comm::candidates_mod(&comm::ModCase::parse(&mut t)),
         "louv" => comm::candidates_louv(&comm::LouvCase::parse(&mut t)),
